@@ -24,4 +24,6 @@ Beh_C03_H1 == Beh_OnlyH1({"nop", "add", "remove", "disp"})
 Subs_All == [H -> (SUBSET Ev) \ {{}}]
 Subs_AllA == {s \in Subs_All : \A h \in H : Trigger \in s[h]}
 Subs_Fixed == {[h \in H |-> IF h = "h1" THEN Ev ELSE {Trigger}]}
+\* a handler that maps no event at all (a component that subscribes only in some configurations): registered all the same
+Subs_OneSilent == {[h \in H |-> IF h = "h2" THEN {} ELSE {Trigger}]}
 =============================================================================
